@@ -573,6 +573,8 @@ def check_service(run: ServiceRun) -> tuple[list[dict[str, Any]], dict[str, int]
     else:
         inc("root_owner")
     inc(f"factory_started_via_{prog.get('factory_via', 'method')}")
+    if prog["handler"] is not None and prog.get("handler_form") == "falsy_object":
+        inc("handler_is_a_falsy_callable_object")
     return V, c
 
 
@@ -614,6 +616,8 @@ def gen_factory_program(rng: Any) -> dict[str, Any]:
                     "dur": rng.choice([0.125, 0.625, 1.125, 2.625, 5.125]), "outcome": outcome, "exc": rng.choice(["ValueError", "Custom", "Group"]),
                     "task_status": rng.random() < 0.5, "name": rng.choice([None, f"task{tid}"]),
                     "func_form": rng.choice(["function", "function", "partial", "object", "unhashable_object"])}
+            if rng.random() < 0.3:
+                spec["own_teardown"] = True
             if outcome == "return" and rng.random() < 0.3 and (swallow or not will_crash):
                 # if this task is cancelled through its handle, its clean-up raises an Exception
                 spec["raise_on_cancel"] = True
@@ -643,6 +647,7 @@ def gen_factory_program(rng: Any) -> dict[str, Any]:
     return {"backend": rng.choice(["asyncio", "trio"]), "sched_seed": rng.randrange(1 << 30), "shuffle": rng.random() < 0.5, "nested": rng.random() < 0.5,
             "handler": handler, "cmds": cmds, "spawn_after_close": rng.choice([None, "start_task_soon", "start_task"]),
             # the factory is started in a context that holds no resource at all
+            "handler_form": rng.choice(["function", "function", "falsy_object"]),
             "owner_empty": rng.random() < 0.3, "factory_via": rng.choice(["method", "method", "shortcut", "component"])}
 
 
@@ -661,6 +666,7 @@ class FactoryRun:
         self.handle_checks: list[dict[str, Any]] = []
         self.model_live: set[int] = set()
         self.cancel_requested: set[int] = set()
+        self.going_down = False
         self.after_close: dict[str, Any] = {}
 
     def t(self) -> float:
@@ -681,6 +687,15 @@ class FactoryRun:
             run.log("task-start", tid, parent_parent_is_owner=bool(par is not None and par.parent is run.owner),
                     parent_is_spawner_ctx=bool(par is spawner_ctx_getter()), parent_is_owner=bool(par is run.owner),
                     visible=sorted(get_resources(ST0)))
+            if spec.get("own_teardown"):
+                # the task's own context has a teardown callback that takes (shielded) virtual time: the task is not finished
+                # - for wait_finished(), all_task_handles() and the owner's teardown - before that is over
+                async def own_teardown() -> None:
+                    with anyio.CancelScope(shield=True):
+                        await anyio.sleep(0.25)
+                    run.log("task-ctx-closed", tid)
+
+                ctx.add_teardown_callback(own_teardown)
             if task_status is not None:
                 task_status.started(("sv", tid))
             child = spec.get("child_spec")
@@ -693,6 +708,7 @@ class FactoryRun:
                     # the task's clean-up fails while it is being cancelled through its handle: an Exception escapes the task
                     exc = make_exc(spec["exc"], f"task{tid}-cleanup")
                     run.raised[tid] = exc
+                    run.going_down = run.going_down or not run.swallow
                     run.log("task-end", tid, how="raise", on_cancel=True)
                     raise exc
                 run.log("task-end", tid, how="cancelled" if is_cancellation(e) else describe_exc(e))
@@ -707,6 +723,7 @@ class FactoryRun:
             if spec["outcome"] == "raise":
                 exc = make_exc(spec["exc"], f"task{tid}")
                 run.raised[tid] = exc
+                run.going_down = run.going_down or not run.swallow
                 run.log("task-end", tid, how="raise")
                 raise exc
             if spec["outcome"] == "teardown_raise":
@@ -719,6 +736,7 @@ class FactoryRun:
                     raise exc
 
                 ctx.add_teardown_callback(failing_teardown)
+                run.going_down = run.going_down or not run.swallow
                 run.log("task-end", tid, how="raise", in_own_teardown=True)
                 return
             run.log("task-end", tid, how="return")
@@ -754,6 +772,11 @@ class FactoryRun:
         known = {id(h): tid for tid, h in self.handles.items()}
         got_tids = sorted(known.get(id(h), f"<unknown {h!r}>") for h in got)
         self.log("handles", "driver", when=when, got=got_tids)
+        # what the caller got is the caller's: emptying it (as code that works a snapshot off does) changes nothing for the factory
+        try:
+            got.clear()
+        except (AttributeError, TypeError):
+            pass  # an immutable snapshot is just as good
 
     async def main(self) -> None:
         from asphalt.core import Context
@@ -762,6 +785,7 @@ class FactoryRun:
         run = self
         self.t0 = anyio.current_time()
         handler = None
+        self.swallow = prog["handler"] is not None and bool(HANDLER_VERDICTS[prog["handler"]])
         if prog["handler"] is not None:
             verdict = HANDLER_VERDICTS[prog["handler"]]
 
@@ -769,6 +793,11 @@ class FactoryRun:
                 run.handler_calls.append(exc)
                 run.log("handler", "handler", exc=describe_exc(exc))
                 return verdict
+
+            if prog.get("handler_form") == "falsy_object":
+                # a callable *object* that is falsy (an error collector that is still empty): it is a handler all the same
+                plain_handler = handler
+                handler = type("Collector", (), {"__call__": lambda self, exc: plain_handler(exc), "__len__": lambda self: 0})()
 
         foreign_send, foreign_recv = anyio.create_memory_object_stream[Any](0)
         foreign_ctx: list[Any] = []
@@ -792,6 +821,12 @@ class FactoryRun:
                             sync_callback()
                         else:
                             await run.spawn(spec, "foreign", fctx)
+                    except RuntimeError as e:
+                        # spawning through a factory whose application is already going down (an exception escaped a task and
+                        # was not swallowed): the statement fixes no outcome for that; anything else is a harness error
+                        if not run.going_down:
+                            raise
+                        run.log("spawn-failed", spec["tid"], exc=describe_exc(e), after_fatal=True)
                     finally:
                         done.set()
 
@@ -948,6 +983,11 @@ def check_factory(run: FactoryRun) -> tuple[list[dict[str, Any]], dict[str, int]
     end = {e["actor"]: e for e in ev if e["kind"] == "task-end"}
     spawned = {e["actor"]: e for e in ev if e["kind"] == "spawned"}
     spawn_call = {e["actor"]: e for e in ev if e["kind"] == "spawn-call"}
+    # the moment a task is really over: when its own context has been torn down (tasks with a teardown callback of their own)
+    closed = {e["actor"]: e for e in ev if e["kind"] == "task-ctx-closed"}
+    fin = {tid: closed.get(tid, e) for tid, e in end.items()}
+    if closed:
+        inc("tasks_with_a_slow_teardown_of_their_own", len(closed))
     # ---- which failure (if any) takes the application down
     fatal = [tid for tid, e in end.items() if e["how"] == "raise" and not swallow]
     fatal_seq = min((end[tid]["seq"] for tid in fatal), default=None)
@@ -988,7 +1028,7 @@ def check_factory(run: FactoryRun) -> tuple[list[dict[str, Any]], dict[str, int]
         for e in ev[cursor:chk["seq"]]:
             if e["kind"] == "spawned":
                 live.add(e["actor"])
-            elif e["kind"] == "task-end":
+            elif e["kind"] in ("task-end", "task-ctx-closed") and fin.get(e["actor"]) is e:
                 live.discard(e["actor"])
         cursor = chk["seq"]
         # tasks whose end is recorded at the very instant of the check are ambiguous only if no scheduling round lay between:
@@ -1043,7 +1083,7 @@ def check_factory(run: FactoryRun) -> tuple[list[dict[str, Any]], dict[str, int]
         if e["kind"] == "wait-return":
             tid = e["actor"]
             inc("wait_finished_returns")
-            te = end.get(tid)
+            te = fin.get(tid)
             if fatal_seq is not None and e["seq"] > fatal_seq:
                 continue  # after a propagating failure everything is being cancelled: only surfacing is checked
             if te is None or te["seq"] > e["seq"]:
@@ -1088,15 +1128,15 @@ def check_factory(run: FactoryRun) -> tuple[list[dict[str, Any]], dict[str, int]
     left = next((e for e in ev if e["kind"] == "left"), None)
     block_end = next((e for e in ev if e["kind"] == "block-end"), None)
     if not fatal and left is not None and block_end is not None:
-        ends_after = [e["vt"] for e in end.values() if e["seq"] > block_end["seq"]]
+        ends_after = [e["vt"] for e in fin.values() if e["seq"] > block_end["seq"]]
         # tasks spawned with start_task_soon right before the end may not even have started: they still run to completion
         exp_left = max([block_end["vt"]] + ends_after)
-        running_at_end = [tid for tid, s in start.items() if tid in end and end[tid]["seq"] > block_end["seq"]]
+        running_at_end = [tid for tid, s in start.items() if tid in fin and fin[tid]["seq"] > block_end["seq"]]
         if running_at_end:
             inc("owner_left_with_tasks_running")
         if any(e["kind"] == "spawn-call" and e["seq"] > block_end["seq"] for e in ev):
             inc("tasks_spawned_during_teardown")
-        late = [e for e in ev if e["seq"] > left["seq"] and e["kind"] in ("task-start", "task-end")]
+        late = [e for e in ev if e["seq"] > left["seq"] and e["kind"] in ("task-start", "task-end", "task-ctx-closed")]
         if late:
             bad("factory-task-after-exit", f"task {late[0]['actor']} produced {late[0]['kind']} after the owning context had been left")
         if abs(left["vt"] - exp_left) > 1e-9:
@@ -1114,4 +1154,6 @@ def check_factory(run: FactoryRun) -> tuple[list[dict[str, Any]], dict[str, int]
     else:
         inc("root_owner")
     inc(f"factory_started_via_{prog.get('factory_via', 'method')}")
+    if prog["handler"] is not None and prog.get("handler_form") == "falsy_object":
+        inc("handler_is_a_falsy_callable_object")
     return V, c
